@@ -38,7 +38,7 @@ struct Layout {
     seeded: u64,
 }
 
-const OSFS: u64 = 5;
+const OSFS: u64 = 7;
 /// every input of length <= 2 over the structural alphabet x every subset of Interrupted at device calls 0..4 x two transports
 const TINY: u64 = (1 + 12 + 144) * 16 * 2;
 const WRITE_VARIANTS: u64 = 4;
@@ -157,11 +157,11 @@ impl Scenario for C09 {
         "fault_enumeration"
     }
     fn rule(&self) -> String {
-        "Enumerated: (a) read faults — for every bundled file, every byte offset 0..=len (all offsets for files <= 8 KiB; dense edges + stride for the four large files) x the property's 5 error kinds (+ one of 15 further kinds rotating with the offset) x {SimReader direct, SimReader under std BufReader} with one-shot/sticky, chunk size, decoder type and an Interrupted placement derived from the offset; (b) write faults — for every map decoded from the corpus, every output offset x {hard error, Ok(0)} x {direct, by-value std BufWriter}, plus flush failure of every kind incl. Interrupted (sticky or first flush only), short-write schedules and Interrupted-only sinks per file; (c) five real-OS probes (/dev/full, missing directory, directory as file, missing file, successful temp file); then seeded combinations (generated files, random transports before the fault, Interrupted-only plans). distinct_nontrivial = distinct plan hashes that plan at least one fault or a transient interruption.".into()
+        "Enumerated: (a) read faults — for every bundled file, every byte offset 0..=len (all offsets for files <= 8 KiB; dense edges + stride for the four large files) x the property's 5 error kinds (+ one of 15 further kinds rotating with the offset) x {SimReader direct, SimReader under std BufReader} with one-shot/sticky, chunk size, decoder type and an Interrupted placement derived from the offset; (b) write faults — for every map decoded from the corpus, every output offset x {hard error, Ok(0)} x {direct, by-value std BufWriter}, plus flush failure of every kind incl. Interrupted (sticky or first flush only), short-write schedules and Interrupted-only sinks per file; (c) seven real-OS probes (/dev/full, missing directory, directory as file, missing file, successful temp file, a zero-length special file whose reads fail through both from_path entry points); then seeded combinations (generated files, random transports before the fault, Interrupted-only plans). distinct_nontrivial = distinct plan hashes that plan at least one fault or a transient interruption.".into()
     }
     fn assumptions(&self) -> Vec<String> {
         vec![
-            "the oracle checks the ErrorKind of the returned error (identity of the payload is only a statistic), so a kind-preserving wrapper is accepted".into(),
+            "'returns that error' is read as: same ErrorKind, and the device's own error object still reachable from the returned error (as its payload or along the payload's source chain); a wrapper that keeps the source passes, an error rebuilt from kind and text does not. WriteZero made by std for an Ok(0) sink has no device error to carry".into(),
             "Interrupted reported by flush itself: the statement does not say whether flush is retried, so both 'the error is returned' and 'a later flush succeeded' are accepted; Ok while the last flush the sink saw had failed is a swallowed error".into(),
             "Interrupted bursts are finite (<= 3 consecutive), otherwise std's retry loops livelock legitimately".into(),
             "large files: offsets are sampled (dense at both ends + stride), not exhaustive".into(),
@@ -556,10 +556,13 @@ fn exec_read(plan: &Plan, st: &mut Stats) -> Result<(), Violation> {
                 Err(k) if k == f.kind => {
                     if via.err_is_injected {
                         st.inc("probe.error-payload-identity-preserved");
+                        Ok(())
                     } else {
-                        st.inc("probe.error-kind-preserved-payload-replaced");
+                        // "returns that error": the reader's error object (here marked with a payload) must still be
+                        // reachable from what decode returns — as the payload itself or along its source chain. An error
+                        // rebuilt from kind and text loses the payload and raw_os_error a caller may rely on.
+                        Err(Violation::new("C09/read-error-replaced", "payload-lost", format!("injected {} at offset {} ({}): decode::<{}> returned an error of the same kind, but it is not the reader's error (its payload is gone from the error and from its source chain)", kind_name(f.kind), f.at, if f.sticky { "sticky" } else { "one-shot" }, dec.name())))
                     }
-                    Ok(())
                 }
                 Err(k) => Err(Violation::new("C09/read-error-kind-changed", "kind-changed", format!("injected {} at offset {} ({}), decode::<{}> returned Err of kind {}", kind_name(f.kind), f.at, if f.sticky { "sticky" } else { "one-shot" }, dec.name(), kind_name(k)))),
                 Ok(_) => Err(Violation::new("C09/read-error-swallowed", "swallowed", format!("injected {} at offset {} of {} ({}), but decode::<{}> returned Ok", kind_name(f.kind), f.at, plan.data.len(), if f.sticky { "sticky" } else { "one-shot" }, dec.name()))),
@@ -666,8 +669,10 @@ fn exec_write(plan: &Plan, st: &mut Stats) -> Result<(), Violation> {
                         return Err(Violation::new("C09/write-error-kind-changed", "kind-changed", format!("sink failed with {} but encode returned kind {}", kind_name(k), kind_name(e.kind()))));
                     }
                 }
-                if e.get_ref().map_or(false, |i| i.is::<crate::simio::Injected>()) {
+                if crate::simio::carries_injected(e) {
                     st.inc("probe.error-payload-identity-preserved");
+                } else if matches!(want, Some(k) if k != ErrorKind::WriteZero || matches!(fault, Some((_, WriteFaultKind::Error(_), _)))) && s.errors_raised > 0 && s.zero_returned == 0 {
+                    return Err(Violation::new("C09/write-error-replaced", "payload-lost", format!("the sink failed with {:?}; encode returned an error of that kind that is not the sink's error (payload gone from the error and its source chain)", want)));
                 }
                 Ok(())
             }
@@ -718,6 +723,29 @@ fn exec_osfs(plan: &Plan, st: &mut Stats) -> Result<(), Violation> {
             Err(_) => Ok(()),
             Ok(_) => Err(Violation::new("C09/read-error-swallowed", "missing-file", "from_path(<missing>) returned Ok")),
         },
+        5 | 6 => {
+            // a special file that opens fine, reports length 0 and whose every read fails (/proc/self/mem: EIO at offset
+            // 0) — reached through a scratch symlink, read-only. Ok(default map) would be a swallowed read error.
+            let target = "/proc/self/mem";
+            let link = dir.join(format!("mem-{:?}-{}", std::thread::current().id(), plan.get("probe")));
+            let _ = std::fs::remove_file(&link);
+            let readable_fails = std::fs::File::open(target).map(|mut f| {
+                use std::io::Read as _;
+                let mut b = [0u8; 8];
+                f.read(&mut b).is_err()
+            });
+            if !matches!(readable_fails, Ok(true)) || std::os::unix::fs::symlink(target, &link).is_err() {
+                st.inc("osfs.failing-special-file-absent");
+                return Ok(());
+            }
+            let r = if plan.get("probe") == 5 { rosu_map::from_path::<Beatmap>(&link).map(|_| ()) } else { Beatmap::from_path(&link).map(|_| ()) };
+            let _ = std::fs::remove_file(&link);
+            st.inc("osfs.failing-special-file-probed");
+            match r {
+                Err(_) => Ok(()),
+                Ok(()) => Err(Violation::new("C09/read-error-swallowed", "failing-special-file", "from_path on a file whose every read fails (length 0 reported) returned Ok")),
+            }
+        }
         _ => {
             let path = dir.join(format!("ok-{:?}.osu", std::thread::current().id()));
             let r = map.encode_to_path(&path);
